@@ -363,6 +363,41 @@ func generate(rng *rand.Rand, tier string) []interface{} {
 			ins = append(ins, b.scenario(t, fmt.Sprintf("nonchild/%s", kindName[typ])))
 		}
 	}
+	// ---- 6. one forged message of the type (a child's server claiming to be ANOTHER child, or the
+	// outsider claiming to be a child) among the children's genuine answers: it fails the sender check
+	np := 40
+	if thorough {
+		np = 400
+	}
+	for i := 0; i < np; i++ {
+		k := 2 + rng.Intn(3)
+		typ := aggTypes[rng.Intn(2)]
+		b := newBuilder(rng, 0)
+		victim := 1 + rng.Intn(k)
+		liar := 1 + rng.Intn(k)
+		for liar == victim {
+			liar = 1 + rng.Intn(k)
+		}
+		if rng.Intn(4) == 0 {
+			liar = nodeh.Outsider
+		}
+		order := shuffled(rng, seq(1, k))
+		at := rng.Intn(k) // the forged message arrives before the at-th genuine one
+		for j, c := range order {
+			if j == at {
+				route := "process"
+				if rng.Intn(2) == 0 {
+					route = "conn"
+				}
+				b.msgs = append(b.msgs, nodeh.Msg{Inst: 0, From: victim, Peer: liar, Wire: victim, Type: typ, Payload: b.payload, Route: route})
+				b.payload++
+				b.msgs = append(b.msgs, nodeh.Msg{Inst: 0, From: 0, Peer: nodeh.PeerNone, Wire: -1, Type: nodeh.TFence, Payload: b.fence, Route: "transmit"})
+				b.fence++
+			}
+			b.send(0, c, typ)
+		}
+		ins = append(ins, b.scenario(star(k), fmt.Sprintf("poisoned/fanout-%d/%s", k, kindName[typ])))
+	}
 	return ins
 }
 
@@ -373,7 +408,25 @@ func corpus() []interface{} {
 		roundsFamily(rng, star(2), 0, -1, nodeh.TCA, [][]int{{1, 2}}, false, "rounds/fanout-2/channel-agg"),
 		// Node/AggregateProofs.v separated_example / unseparated_example
 		roundsFamily(rng, star(2), 0, -1, nodeh.THA, [][]int{{1, 2}, {2, 1}}, false, "rounds/fanout-2/handler-agg"),
+		// Node/C04CheckProofs.v rounds_mix_refuted: child 1 is one round ahead
 		roundsFamily(rng, star(2), 0, -1, nodeh.THA, [][]int{{1, 1}, {2, 2}}, false, "unseparated/fanout-2/handler-agg"),
+		// nonchild_refuted: a grandchild (position 4) sends the aggregated type
+		func() input {
+			b := newBuilder(rng, 0)
+			for _, c := range []int{1, 4, 2, 3} {
+				b.send(0, c, nodeh.THA)
+			}
+			return b.scenario(nd(0, leaf(1), leaf(2), nd(3, leaf(4))), "nonchild/handler-agg")
+		}(),
+		// poisoned_refuted: server 2 claims to be child 1; then both children answer
+		func() input {
+			b := newBuilder(rng, 0)
+			b.msgs = append(b.msgs, nodeh.Msg{Inst: 0, From: 1, Peer: 2, Wire: 1, Type: nodeh.THA, Payload: 50, Route: "conn"},
+				nodeh.Msg{Inst: 0, From: 0, Peer: nodeh.PeerNone, Wire: -1, Type: nodeh.TFence, Payload: 190, Route: "transmit"})
+			b.send(0, 2, nodeh.THA)
+			b.send(0, 1, nodeh.THA)
+			return b.scenario(star(2), "poisoned/fanout-2/handler-agg")
+		}(),
 	}
 }
 
@@ -396,6 +449,15 @@ func run(raw json.RawMessage) lib.Case {
 	class := in.Class
 	if class == "" {
 		class = "replay"
+	}
+	// the only scenarios the checker does not judge: a server hosting two nodes (repeated node ids)
+	seen := map[int]bool{}
+	for _, n := range res.Nodes {
+		if seen[n.ID] {
+			class = "unjudged-repeated-ids/" + class
+			break
+		}
+		seen[n.ID] = true
 	}
 	type obsT struct {
 		Deliveries []nodeh.Delivery `json:"deliveries"`
